@@ -257,7 +257,7 @@ func runRound(rd Round, dir string) M {
 	}
 	// C11: while unclaimed tasks of pending promises are waiting and the transports accept, hand-offs keep being attempted
 	// (an unclaimed task cycles init -> enqueued -> init as its claim window lapses, so deliveries keep coming)
-	if rd.ShutdownAt < 0 || rd.ShutdownAt >= total {
+	if rd.ShutdownAt < 0 { // shutdown not requested yet: after a shutdown request background coroutines are no longer started
 		waiting := func() int {
 			db, err := sql.Open("sqlite3", path)
 			if err != nil {
@@ -265,7 +265,7 @@ func runRound(rd Round, dir string) M {
 			}
 			defer db.Close()
 			var n int
-			_ = db.QueryRow(`SELECT count(*) FROM tasks t JOIN promises p ON p.id = t.root_promise_id WHERE t.state IN (1, 2) AND p.state = 1 AND p.timeout > ? AND t.timeout > ?`,
+			_ = db.QueryRow(`SELECT count(*) FROM tasks t JOIN promises p ON p.id = t.root_promise_id WHERE t.state IN (1, 2) AND p.state = 1 AND p.timeout > ? AND t.timeout > ? AND NOT EXISTS (SELECT 1 FROM tasks c WHERE c.root_promise_id = t.root_promise_id AND c.state = 4)`,
 				time.Now().UnixMilli()+10000, time.Now().UnixMilli()+10000).Scan(&n)
 			return n
 		}
